@@ -19,13 +19,35 @@ MAXQ, MAXR = int(P.get('maxq', 3)), int(P.get('maxr', 4))
 MAXSEL = int(P.get('maxsel', 3))      # longest index selection
 
 
+REG = {}
+
+
 def sig(i, dtype='u4'):
-    """signature number i: first element is its identity, length varies (one has a single element)."""
-    return np.array([100 + i] + list(range(200 + i, 200 + i + (i % 3))), dtype=dtype)
+    """signature number i: first element is its identity, length varies (one has a single element).  64-bit ones end in a value
+    that fits no narrower type, so that any silent narrowing changes their content."""
+    vals = [100 + i] + list(range(200 + i, 200 + i + (i % 3)))
+    if np.dtype(dtype).itemsize == 8:
+        vals.append(2 ** 40 + i)
+    a = np.array(vals, dtype=dtype)
+    REG[(i, np.dtype(dtype).itemsize == 8)] = a.astype('u8')
+    return a
+
+
+def _ident(a):
+    """identity of a signature as the kernel sees it; None if its content is not what was handed to the library"""
+    i = int(a[0]) - 100
+    for wide in (False, True):
+        ref = REG.get((i, wide))
+        if ref is not None and len(ref) == len(a) and np.array_equal(np.asarray(a).astype('u8'), ref):
+            return i
+    return None
 
 
 def tag(q, r):
-    return np.float32((int(q[0]) - 100) * 16 + (int(r[0]) - 100) + 1)
+    iq, ir = _ident(q), _ident(r)
+    if iq is None or ir is None:
+        return np.float32(-7777)          # the kernel was given something else than one of the caller's signatures
+    return np.float32(iq * 16 + ir + 1)
 
 
 class CStub:
@@ -105,7 +127,8 @@ if P.get('kind') == 3:
 
 def _matrix_concrete(nq, nr, chunk, kind, nsel, s0, s1, s2, own_out, qkind):
     queries = [sig(i) for i in range(nq)]
-    refs_l = [sig(8 + j) for j in range(nr)]
+    # plain Python lists may hold signatures of different integer widths (narrow first, wide later)
+    refs_l = [sig(8 + j, 'u4' if kind != 2 else ['u2', 'u8', 'u4'][j % 3]) for j in range(nr)]
     refs = container(kind, refs_l)
     qs = container(qkind, queries)
     sel = None if nsel == 0 else [s0, s1, s2][:nsel - 1] if nsel > 1 else []
@@ -157,7 +180,7 @@ def explain_c05_matrix(nq, nr, chunk, kind, nsel, s0, s1, s2, own_out, qkind):
 
 
 def _pairwise_concrete(n, kind, nsel, s0, s1, s2, s3, flat, own_out):
-    sigs_l = [sig(i) for i in range(n)]
+    sigs_l = [sig(i, 'u4' if kind != 2 else ['u2', 'u8', 'u4'][i % 3]) for i in range(n)]
     sigs = container(kind, sigs_l)
     sel = None if nsel == 0 else [s0, s1, s2, s3][:nsel - 1]
     if sel is not None and any(s >= n for s in sel):
